@@ -2,7 +2,6 @@ package twig
 
 import (
 	"fmt"
-	"strings"
 )
 
 // ApplyFilter applies a filter to a value
@@ -31,36 +30,9 @@ func (ctx *RenderContext) ApplyFilter(name string, value interface{}, args ...in
 	// Handle built-in filters for macro compatibility
 	switch name {
 	case "e", "escape":
-		// Optimized HTML escape using a single pass with strings.Builder
-		str := ctx.ToString(value)
-		if str == "" {
-			return "", nil
-		}
-
-		// Preallocate with a reasonable estimate (slightly larger than original)
-		// This avoids most reallocations
-		var b strings.Builder
-		b.Grow(len(str) + len(str)/8)
-
-		// Single-pass iteration is much more efficient than nested Replace calls
-		for _, c := range str {
-			switch c {
-			case '&':
-				b.WriteString("&amp;")
-			case '<':
-				b.WriteString("&lt;")
-			case '>':
-				b.WriteString("&gt;")
-			case '"':
-				b.WriteString("&quot;")
-			case '\'':
-				b.WriteString("&#39;")
-			default:
-				b.WriteRune(c)
-			}
-		}
-
-		return b.String(), nil
+		// The same escaping as the registered filter (a loop over runes, as was
+		// here before, turns every byte of invalid UTF-8 into U+FFFD)
+		return escapeHTML(ctx.ToString(value)), nil
 	}
 
 	return nil, fmt.Errorf("filter '%s' not found", name)
